@@ -307,6 +307,12 @@ func (s *Swarm) close() {
 	s.conns.m = nil
 	s.conns.Unlock()
 
+	// Cancel the dials that are in flight: their contexts do not derive from the swarm's
+	// (see dialSync.getActiveDial), so without this the transports keep dialing, holding
+	// their connection scopes and file descriptors, and the callers keep waiting, until
+	// the dial timeout expires long after Close has returned.
+	s.dsync.cancelAll(ErrSwarmClosed)
+
 	// Lots of goroutines but we might as well do this in parallel. We want to shut down as fast as
 	// possible.
 	s.refs.Add(len(listeners))
